@@ -15,14 +15,14 @@ ADD = r"(add-lit|add-self)"
 
 def ops_of(key):
     """the operation list of a list-chain / list-nested / list-index / index key"""
-    m = re.search(r":(?:nat3|empty|str2|rep2):([a-z0-9.\-]+)", key)
+    m = re.search(r":(?:nat3|empty|str2|rep2):([a-z0-9.*\-]+)", key)
     return m.group(1).split(".") if m else []
 
 
 def cause(key):
     if re.match(r"^value:unary:not:", key):
         return "not-keeps-the-operand-type"
-    if re.search(r":(sum|prod)$", key) and key.startswith("value:list-"):
+    if re.search(r":(sum|prod)$", key) and re.match(r"^(value|class):list-", key):
         return "sum-prod-typed-as-element"
     if key.startswith("index-accepted-out-of-range:below-minus-length:"):
         return "negative-index-accepted"
@@ -61,8 +61,38 @@ FINDINGS = {
 }
 
 
+ATOMS = ("nat3", "empty", "str2", "rep2")
+OPS = ("push", "push-neg", "add-lit", "add-self", "concat", "mul2", "mul0", "insert", "remove-at", "remove-all", "reversed", "from", "dedup", "slice", "map-list")
+
+
+def structural_keys():
+    """Keys of the chains longer than the exact part of a key (`*.Y.Z`, terminals `*.Z`): the class of the input is
+    'some longer chain whose last operations are Y, Z'. They are listed by rule (every class the root cause covers),
+    not from a run: depth-3 chains were only run on a slice (see notes/reports/C34.md)."""
+    out = set()
+    for atom in ATOMS:
+        for y in OPS:
+            for z in OPS:
+                if y not in ("add-lit", "add-self") and z not in ("add-lit", "add-self"):
+                    continue
+                oc = f"*.{y}.{z}"
+                for form in ("list-chain", "list-nested"):
+                    for r in ("length", "element", "element+length"):
+                        out.add(f"{r}:{form}:{atom}:{oc}")
+                for r in ("value", "class"):
+                    for sign in ("negative", "non-negative"):
+                        out.add(f"{r}:list-index:{atom}:{oc}:{sign}")
+                for cls in ("equal-length", "above-length"):
+                    out.add(f"index-accepted-out-of-range:{cls}:{atom}:{oc}")
+        for oc in ["atom"] + list(OPS) + [f"*.{z}" for z in OPS]:
+            for t in ("sum", "prod"):
+                for r in ("value", "class"):
+                    out.add(f"{r}:list-chain:{atom}:{oc}:{t}")
+    return out
+
+
 def main():
-    keys = set()
+    keys = structural_keys()
     for path in sys.argv[1:]:
         keys |= set(json.load(open(path)))
     by = {n: [] for n in FINDINGS}
